@@ -61,7 +61,16 @@ func (vm *VM) runFunc(fn *Function, vars []reflect.Value) error {
 	if stop != nil {
 		close(stop)
 		if atomic.LoadInt32(&vm.env.done) == 1 {
-			return vm.env.ctx.Err()
+			// If the execution has been terminated by an error of the
+			// template output, return that error even if the context has
+			// been canceled in the meantime.
+			outFailed := false
+			if p := vm.panic; p != nil && !p.recovered {
+				_, outFailed = p.message.(outError)
+			}
+			if !outFailed {
+				return vm.env.ctx.Err()
+			}
 		}
 	}
 	if vm.panic != nil {
